@@ -452,13 +452,10 @@ pub fn detect_endianness_from_magic(magic: u32) -> Option<Endianness> {
 /// Write endianness magic number to identify format
 pub fn write_endianness_magic(endianness: Endianness) -> u32 {
     match endianness {
-        Endianness::Little | Endianness::Native if Endianness::native() == Endianness::Little => {
-            ENDIAN_MAGIC_LITTLE
-        }
-        Endianness::Big | Endianness::Native if Endianness::native() == Endianness::Big => {
-            ENDIAN_MAGIC_BIG
-        }
-        _ => ENDIAN_MAGIC_LITTLE, // Default to little endian
+        Endianness::Little => ENDIAN_MAGIC_LITTLE,
+        Endianness::Big => ENDIAN_MAGIC_BIG,
+        Endianness::Native if Endianness::native() == Endianness::Big => ENDIAN_MAGIC_BIG,
+        Endianness::Native => ENDIAN_MAGIC_LITTLE,
     }
 }
 
